@@ -5,6 +5,7 @@
 mod util;
 mod omap;
 mod search;
+mod grid;
 
 fn main() {
     let args: Vec<String> = std::env::args().collect();
@@ -16,6 +17,7 @@ fn main() {
     let rc = match args[1].as_str() {
         "omap" => omap::main(rest),
         "search" => search::main(rest),
+        "grid" => grid::main(rest),
         other => {
             eprintln!("unknown subcommand {}", other);
             2
